@@ -1157,6 +1157,30 @@ func (f *frame) callContract(fc *FuncContract, callee *ssa.Function, args []*Val
 			return nil, err
 		}
 	}
+	// `appends P` (assumed contracts of append-like functions, strconv.AppendInt ...): when the argument is
+	// a[lo:hi] of an array cell, the call writes the appended elements INTO the array provided the result
+	// fits its capacity (len(a) - lo); otherwise a new array is allocated and a is unchanged.
+	if fc.Appends != "" && fc.Extern && f.c != nil && !f.pure && len(results) > 0 {
+		for i, pd := range fc.Params {
+			if pd.Name != fc.Appends || i >= len(args) || args[i] == nil || args[i].Arr == nil {
+				continue
+			}
+			org := args[i].Arr
+			cur, err := f.load(org.p, org.typ)
+			if err != nil {
+				return nil, err
+			}
+			if cur.String() != org.arr.String() {
+				return nil, unsupported("%s: the array behind the slice argument was written between slicing and the call", fc.Key)
+			}
+			R := results[0]
+			fits := Le(Add(org.lo, SeqLen(R)), IntLit(org.n))
+			upd := SeqCat(SeqCat(SeqSub(cur, IntLit(0), org.lo), R), SeqSub(cur, Add(org.lo, SeqLen(R)), nil))
+			if err := f.store(org.p, Ite(fits, upd, cur), org.typ); err != nil {
+				return nil, err
+			}
+		}
+	}
 	return resultVal(sig, results), nil
 }
 
